@@ -4,7 +4,13 @@ S1  TLC checks specs/C02/BondList.tla (all reachable states of the bounded machi
 S2  every transition of TLC's state graph is replayed against the real BondList
     (paths from the initial state; after each call n / as_set / outcome / returned value are
     compared with the spec state).
-S3  random histories on larger lists are recorded and validated by TLC (specs/C02/Trace.tla).
+S2b every case of specs/C02/BondCalls.tla (one call on a root list, with its arguments in every
+    form a caller may hand them over - Python ints / numpy integer scalars, lists / integer
+    ndarrays of every dtype, byte order and layout, bool arrays / lists of bools, slices with
+    numpy bounds, constructor rows of every dtype - and == / != against every one-aspect
+    variant of the root and against foreign objects) is executed; nothing is sampled.
+S3  random histories on larger lists (random forms, comparisons with variants of the current
+    list) are recorded and validated by TLC (specs/C02/Trace.tla).
 """
 
 from __future__ import annotations
@@ -25,36 +31,147 @@ def _np():
     return np
 
 
+class DriverError(Exception):
+    """The driver was asked for something outside the specification's domain (machinery)."""
+
+
+# forms of BondListOps "index forms": token -> numpy dtype string
+_NPT = {"i8": "int8", "i16": "int16", "i32": "int32", "i64": "int64",
+        "u8": "uint8", "u16": "uint16", "u32": "uint32", "u64": "uint64"}
+_BIG = {"bi16": ">i2", "bi32": ">i4", "bi64": ">i8", "bu16": ">u2", "bu64": ">u8"}
+_STRIDED = {"i64s": "int64", "u8s": "uint8", "i32s": "int32"}
+SCALAR_FORMS = ("py",) + tuple(_NPT)
+ARRAY_FORMS = ("list",) + tuple(_NPT) + tuple(_BIG) + ("i64s", "u8s")
+MASK_FORMS = ("np", "list", "strided")
+SLICE_FORMS = ("py", "np")
+ROWS_FORMS = tuple(_NPT) + ("bi32", "bi64", "i64f", "i32s")
+
+
+def _unsigned(form):
+    return form in ("u8", "u16", "u32", "u64", "bu16", "bu64", "u8s")
+
+
+def int_form(k, form="py"):
+    """An integer in one of BondListOps.ScalarForms."""
+    np = _np()
+    k = int(k)
+    if form == "py":
+        return k
+    if form not in _NPT:
+        raise DriverError(f"unknown scalar form {form!r}")
+    if form[0] == "u" and k < 0:
+        raise DriverError(f"negative value {k} in unsigned form {form} (outside Dom_ScalarForm)")
+    try:
+        return getattr(np, _NPT[form])(k)
+    except OverflowError:
+        raise DriverError(f"value {k} does not fit the form {form}")
+
+
+def _int_array(vals, form):
+    """A 1-d integer array in one of the ndarray forms of BondListOps.ArrayForms."""
+    np = _np()
+    vals = [int(v) for v in vals]
+    if _unsigned(form) and any(v < 0 for v in vals):
+        raise DriverError(f"negative value in unsigned form {form} (outside Dom_IdxForm)")
+    try:
+        if form in _NPT:
+            return np.array(vals, dtype=_NPT[form])
+        if form in _BIG:
+            return np.array(vals, dtype=np.dtype(_BIG[form]))
+        if form in _STRIDED:
+            # the same values as a non-contiguous view (every second element of a doubled array)
+            return np.repeat(np.array(vals, dtype=_STRIDED[form]), 2)[::2]
+    except OverflowError:
+        raise DriverError(f"values {vals} do not fit the form {form}")
+    raise DriverError(f"unknown array form {form!r}")
+
+
 def to_index(x):
-    """Spec index object -> Python/numpy index."""
+    """Spec index object <<kind, payload[, form]>> -> Python/numpy index."""
     np = _np()
     kind, p = x[0], x[1]
+    form = x[2] if len(x) > 2 else None
     if kind == "int":
-        return int(p[0])
+        return int_form(p[0], form or "py")
     if kind == "slice":
-        a, b, c = [None if len(o) == 0 else int(o[0]) for o in p]
+        if form not in (None, "py", "np"):
+            raise DriverError(f"unknown slice form {form!r}")
+        conv = np.int64 if form == "np" else int
+        a, b, c = [None if len(o) == 0 else conv(int(o[0])) for o in p]
         return slice(a, b, c)
     if kind == "mask":
+        if form == "list":
+            return [bool(v) for v in p]
         m = np.array([bool(v) for v in p], dtype=bool)
-        if len(x) > 2 and x[2] == "strided":
+        if form == "strided":
             # the same mask as a non-contiguous view (every second element of a doubled array):
             # numpy accepts it as an index like any other boolean array
-            m = np.repeat(m, 2)[::2]
+            return np.repeat(m, 2)[::2]
+        if form not in (None, "np"):
+            raise DriverError(f"unknown mask form {form!r}")
         return m
     if kind == "arr":
-        return np.array([int(v) for v in p], dtype=np.int64)
+        if form == "list":
+            return [int(v) for v in p]
+        return _int_array(p, form or "i64")
     if kind == "all":
         return slice(None)
-    raise ValueError(kind)
+    raise DriverError(kind)
 
 
-def make(n, rows):
+def make(n, rows, form=None):
+    """BondList(n, rows); `form` (BondListOps.RowsForms) = dtype / byte order / layout of the array."""
     from biotite.structure import BondList
 
     np = _np()
-    if len(rows) == 0:
-        return BondList(int(n))
-    return BondList(int(n), np.array(rows, dtype=np.int64).reshape(-1, 3))
+    if form is None:
+        if len(rows) == 0:
+            return BondList(int(n))
+        return BondList(int(n), np.array(rows, dtype=np.int64).reshape(-1, 3))
+    rows = [[int(v) for v in r] for r in rows]
+    if _unsigned(form) and any(r[0] < 0 or r[1] < 0 for r in rows):
+        raise DriverError(f"negative index in unsigned rows form {form} (outside Dom_RowsForm)")
+    if form in _NPT:
+        arr = np.array(rows, dtype=_NPT[form]).reshape(-1, 3)
+    elif form in _BIG:
+        arr = np.array(rows, dtype=np.dtype(_BIG[form])).reshape(-1, 3)
+    elif form == "i64f":
+        arr = np.asfortranarray(np.array(rows, dtype=np.int64).reshape(-1, 3))
+    elif form == "i32s":
+        wide = np.full((2 * len(rows), 5), 99, dtype=np.int32)      # rows interleaved with junk
+        if rows:
+            wide[::2, 1:4] = np.array(rows, dtype=np.int32).reshape(-1, 3)
+        arr = wide[::2, 1:4]
+    else:
+        raise DriverError(f"unknown rows form {form!r}")
+    return BondList(int(n), arr)
+
+
+def _forms(a, k, count):
+    """The trailing forms component of a scalar call (a[k]), or Python ints."""
+    if len(a) > k:
+        f = a[k]
+        return [f] if count == 1 else list(f)
+    return ["py"] * count
+
+
+def _foreign(bl, code):
+    """Objects that are not bond lists (BondListOps: <<"obj", <<code>>>>); the flag says whether the
+    reflected comparison obj == bl is meaningful (an ndarray would compare element-wise)."""
+    n = int(bl.get_atom_count())
+    if code == 0:
+        return None, True
+    if code == 1:
+        return n, True
+    if code == 2:
+        return str(bl), True
+    if code == 3:
+        return bl.as_set(), True
+    if code == 4:
+        return (n, tuple(sorted(bl.as_set()))), True
+    if code == 5:
+        return bl.as_array(), False
+    raise DriverError(f"unknown foreign object code {code!r}")
 
 
 def nbrs(res):
@@ -98,13 +215,15 @@ def apply_real(bl, op, a):
     out = []
     try:
         if op == "construct":
-            bl = make(a[0], a[1])
+            bl = make(a[0], a[1], a[2] if len(a) > 2 else None)
         elif op == "add":
-            bl.add_bond(int(a[0]), int(a[1]), int(a[2]))
+            fi, fj = _forms(a, 3, 2)
+            bl.add_bond(int_form(a[0], fi), int_form(a[1], fj), int(a[2]))
         elif op == "remove":
-            bl.remove_bond(int(a[0]), int(a[1]))
+            fi, fj = _forms(a, 2, 2)
+            bl.remove_bond(int_form(a[0], fi), int_form(a[1], fj))
         elif op == "remove_to":
-            bl.remove_bonds_to(int(a[0]))
+            bl.remove_bonds_to(int_form(a[0], _forms(a, 1, 1)[0]))
         elif op == "remove_bonds":
             bl.remove_bonds(make(a[0], a[1]))
         elif op == "merge":
@@ -114,7 +233,7 @@ def apply_real(bl, op, a):
         elif op == "rconcat":
             bl = BondList.concatenate([make(a[0], a[1]), bl])
         elif op == "offset":
-            bl.offset_indices(int(a[0]))
+            bl.offset_indices(int_form(a[0], _forms(a, 1, 1)[0]))
         elif op == "strip_arom":
             bl.remove_aromaticity()
         elif op == "strip_order":
@@ -126,9 +245,23 @@ def apply_real(bl, op, a):
             else:
                 bl = r
         elif op == "get_bonds":
-            out = nbrs(bl.get_bonds(int(a[0])))
+            out = nbrs(bl.get_bonds(int_form(a[0], _forms(a, 1, 1)[0])))
         elif op == "contains":
-            out = bool((int(a[0]), int(a[1])) in bl)
+            fi, fj = _forms(a, 2, 2)
+            out = bool((int_form(a[0], fi), int_form(a[1], fj)) in bl)
+        elif op == "eq":
+            # a = [kind, payload]: "list" [m, rows] or "obj" [code]; the variants the specification
+            # describes relative to the current list are resolved by the caller from the
+            # specification's own value (out.other) before they get here
+            if a[0] == "obj":
+                other, reflect = _foreign(bl, a[1][0])
+            elif a[0] == "list":
+                other, reflect = make(a[1][0], a[1][1]), True
+            else:
+                raise DriverError(f"unresolved comparison argument {a!r}")
+            out = [bool(bl == other), not bool(bl != other)]
+            if reflect:
+                out += [bool(other == bl), not bool(other != bl)]
         elif op == "independent":
             how, x = a
             if how == "index":
@@ -223,6 +356,8 @@ def out_matches(op, a, exp, got):
         return bool(got) == bool(exp)
     if op == "independent":
         return got == exp
+    if op == "eq":
+        return len(got) >= 2 and all(bool(g) == bool(exp["eq"]) for g in got)
     if op == "views":
         if len(got["nb"]) != len(exp["nb"]):
             return False
@@ -262,9 +397,12 @@ def exec_path(item):
     bl = make(st["n"], [list(b) for b in st["B"]])
     mism = []
     nsteps = 0
+    done = []          # the calls made so far, with their arguments as realised
     for li, dst in item["steps"]:
         _k, op, a = labels[li]
         exp = states[dst]
+        a = resolve_eq(op, a, exp["oc"], exp["out"])
+        done.append([op, a])
         n_before = bl.get_atom_count()
         progress({"op": op, "a": a, "n_before": n_before, "exp_oc": exp["oc"]})
         nsteps += 1
@@ -279,7 +417,7 @@ def exec_path(item):
             if isinstance(r, dict) and "crash" in r:
                 mism.append({"kind": "crash", "signal": r["crash"], "progress":
                              {"op": op, "a": a, "n_before": n_before, "exp_oc": exp["oc"]},
-                             "path": [labels[x][1:] for x, _ in item["steps"][:nsteps]],
+                             "path": list(done),
                              "init": {"n": st["n"], "B": st["B"]}})
                 continue
             oc, out, (n, bonds, cmax_ok) = r
@@ -302,7 +440,7 @@ def exec_path(item):
             mism.append({"kind": "step", "op": op, "a": a, "n_before": n_before, "bad": bad,
                          "expected": {"oc": exp["oc"], "n": exp["n"], "B": exp["B"], "out": exp["out"]},
                          "observed": {"oc": oc, "n": n, "B": bonds, "out": out},
-                         "path": [labels[x][1:] for x, _ in item["steps"][:nsteps]],
+                         "path": list(done),
                          "init": {"n": st["n"], "B": st["B"]}})
             if exp["oc"] != "ok":
                 continue  # refused call judged in a fork; our object is still the pre-state
@@ -311,18 +449,72 @@ def exec_path(item):
     return {"mismatch": mism, "steps": nsteps}
 
 
+def exec_item(item):
+    return exec_calls(item) if "cases" in item else exec_path(item)
+
+
+def resolve_eq(op, a, exp_oc, exp_out):
+    """A comparison with a list the specification describes relative to the current one
+    (<<"natoms", <<1>>>>, <<"retype", <<k, t>>>>, ...) is realised with the constructor input the
+    specification computed for it (out.other)."""
+    if op == "eq" and a[0] not in ("list", "obj") and exp_oc == "ok":
+        return ["list", exp_out["other"], a]
+    return a
+
+
+# --------------------------------------------------------------------------- S2b child
+def exec_calls(item):
+    """Cases of specs/C02/BondCalls.tla: every call is made on a fresh root list."""
+    from harness.tlabind.pool import progress
+
+    mism = []
+    n0, B0 = item["n"], item["B"]
+    for op, a0, exp in item["cases"]:
+        a = resolve_eq(op, a0, exp["oc"], exp["out"])
+        bl = make(n0, B0)
+        progress({"op": op, "a": a, "n_before": n0, "exp_oc": exp["oc"], "init": {"n": n0, "B": B0}})
+        bl2, oc, out = apply_real(bl, op, a)
+        n, bonds, cmax_ok = project(bl2)
+        bad = []
+        if oc != exp["oc"]:
+            bad.append("oc")
+        if n != exp["n"]:
+            bad.append("n")
+        if _sset(bonds) != _sset(exp["B"]) or not _nodup(bonds):
+            bad.append("B")
+        if not cmax_ok:
+            bad.append("cache")
+        if oc == "ok" and exp["oc"] == "ok" and not out_matches(op, a, exp["out"], out):
+            bad.append("out")
+        if bad:
+            mism.append({"kind": "call", "op": op, "a": a, "n_before": n0, "bad": bad,
+                         "expected": {"oc": exp["oc"], "n": exp["n"], "B": exp["B"], "out": exp["out"]},
+                         "observed": {"oc": oc, "n": n, "B": bonds, "out": out},
+                         "path": [[op, a]], "init": {"n": n0, "B": B0}})
+    return {"mismatch": mism, "steps": len(item["cases"])}
+
+
 # --------------------------------------------------------------------------- S3 child
-def _rand_index(rng, n):
+def _rand_scalar_form(rng, k):
+    """A form admissible for the integer k (BondListOps.Dom_ScalarForm)."""
+    return rng.choice([f for f in SCALAR_FORMS if k >= 0 or not _unsigned(f)])
+
+
+def _rand_index(rng, n, plain=False):
+    """A random index object in a random admissible form (BondListOps.Dom_IdxForm).  plain: only
+    the forms that no known finding concerns (native byte order, contiguous)."""
     k = rng.random()
     if k < 0.15:
-        return ["int", [rng.randint(-n - 2, n + 1)]]
+        v = rng.randint(-n - 2, n + 1)
+        return ["int", [v], _rand_scalar_form(rng, v)]
     if k < 0.45:
         def c(lo, hi):
             return [] if rng.random() < 0.3 else [rng.randint(lo, hi)]
         step = [] if rng.random() < 0.4 else [rng.choice([-3, -2, -1, 1, 2, 3])]
-        return ["slice", [c(-n - 2, n + 2), c(-n - 2, n + 2), step]]
+        return ["slice", [c(-n - 2, n + 2), c(-n - 2, n + 2), step], rng.choice(SLICE_FORMS)]
     if k < 0.65:
-        return ["mask", [rng.random() < 0.6 for _ in range(n)]]
+        form = rng.choice(["np", "np", "list"] + ([] if plain else ["strided"]))
+        return ["mask", [rng.random() < 0.6 for _ in range(n)], form]
     if k < 0.95:
         m = rng.randint(0, n)
         pool = list(range(n))
@@ -333,8 +525,50 @@ def _rand_index(rng, n):
             arr.append(rng.choice([n, n + 1, -n - 1]))      # out of range
         elif r < 0.18 and arr:
             arr.append(arr[0])                               # duplicate
-        return ["arr", arr]
-    return ["all", []]
+        forms = [f for f in ARRAY_FORMS if (all(v >= 0 for v in arr) or not _unsigned(f))
+                 and not (plain and (f in _BIG or f in _STRIDED))]
+        return ["arr", arr, rng.choice(forms)]
+    return ["all", [], "py"]
+
+
+def _rand_other(rng, bl, nmax):
+    """A list to compare the real list with: it differs from it in one aspect at most (atom
+    count, one bond type, one bond more or less, order / orientation / sign of the rows), or
+    is unrelated; or a foreign object.  Returned as the argument of op "eq"."""
+    n = int(bl.get_atom_count())
+    rows = [[int(v) for v in r] for r in bl.as_array().tolist()]
+    k = rng.random()
+    if k < 0.12:
+        return ["obj", [rng.randrange(6)]]
+    if k < 0.2:
+        m = rng.randint(0, min(nmax, 6))
+        return ["list", [m, _rand_rows(rng, m, rng.randint(0, m + 1))]]
+    m = n
+    if k < 0.45:
+        lo = max([r[1] + 1 for r in rows] + [0])             # the same bonds over another atom count
+        m = rng.choice([x for x in (lo, n - 1, n + 1, n + 2, n + 5) if x >= lo and x != n] or [n + 1])
+    elif k < 0.6 and rows:
+        r = rng.choice(rows)
+        r[2] = rng.choice([t for t in range(10) if t != r[2]])
+    elif k < 0.7 and rows:
+        rows.pop(rng.randrange(len(rows)))
+    elif k < 0.8 and n >= 2:
+        i, j = rng.sample(range(n), 2)
+        if not any({r[0], r[1]} == {i, j} for r in rows):
+            rows.append([i, j, rng.randint(0, 9)])
+    # the same mapping written differently: order, orientation, negative indices, a repeated pair
+    rng.shuffle(rows)
+    for r in rows:
+        if rng.random() < 0.5:
+            r[0], r[1] = r[1], r[0]
+        if rng.random() < 0.3:
+            r[0] -= m
+        if rng.random() < 0.3:
+            r[1] -= m
+    if rows and rng.random() < 0.3:
+        r = rng.choice(rows)
+        rows.append([r[1], r[0], rng.randint(0, 9)])         # later duplicate: the first row wins
+    return ["list", [m, rows]]
 
 
 def _rand_rows(rng, n, k):
@@ -371,18 +605,26 @@ def gen_trace(item):
         else:
             op = rng.choice(["add", "add", "add", "remove", "remove_to", "remove_bonds", "merge",
                              "concat", "rconcat", "offset", "strip_arom", "strip_order", "index",
-                             "index", "get_bonds", "contains", "views", "copy", "construct", "independent"])
+                             "index", "get_bonds", "contains", "views", "copy", "construct", "independent",
+                             "eq", "eq"])
             lo = -n if safe_only else -n - 2
             if op == "construct":
                 m = rng.randint(0, nmax)
                 a = [m, _rand_rows(rng, m, rng.randint(0, 2 * m))]
+                forms = [f for f in ROWS_FORMS if not _unsigned(f) or all(r[0] >= 0 and r[1] >= 0 for r in a[1])]
+                if rng.random() < 0.7:
+                    a.append(rng.choice(forms))
             elif op in ("add", "remove"):
                 i, j = rng.randint(lo, n + 1), rng.randint(lo, n + 1)
                 if n > 0 and -n <= i < n and -n <= j < n and i % n == j % n:
                     continue
                 a = [i, j] + ([rng.randint(0, 9)] if op == "add" else [])
+                a.append([_rand_scalar_form(rng, i), _rand_scalar_form(rng, j)])
             elif op in ("remove_to", "get_bonds"):
-                a = [rng.randint(lo, n + 1)]
+                i = rng.randint(lo, n + 1)
+                a = [i, _rand_scalar_form(rng, i)]
+            elif op == "eq":
+                a = _rand_other(rng, bl, nmax)
             elif op in ("remove_bonds", "merge", "concat", "rconcat"):
                 m = rng.randint(0, min(nmax, 6)) if op != "remove_bonds" else n
                 if op in ("concat", "rconcat") and n + m > 3 * nmax:
@@ -392,18 +634,17 @@ def gen_trace(item):
                 a = [rng.choice([-1, 0, 1, 2])]
                 if n + a[0] > 3 * nmax:
                     continue
+                a.append(_rand_scalar_form(rng, a[0]))
             elif op == "index":
                 a = [_rand_index(rng, n)]
                 if safe_only and a[0][0] == "int" and a[0][1][0] < -n:
                     continue
-                if a[0][0] == "mask" and rng.random() < 0.3:
-                    a[0] = a[0] + ["strided"]     # realisation detail: a non-contiguous view
             elif op == "independent":
                 how = rng.choice(["index", "index", "merge", "concat", "copy"])
                 if how == "index":
-                    x = _rand_index(rng, n)
+                    x = _rand_index(rng, n, plain=True)
                     if x[0] == "int" or (x[0] == "mask" and rng.random() < 0.4):
-                        x = ["mask", [True] * n]
+                        x = ["mask", [True] * n, "np"]
                     a = [how, x]
                 elif how == "copy":
                     a = [how, []]
@@ -414,7 +655,7 @@ def gen_trace(item):
                 if n < 2:
                     continue
                 i, j = rng.sample(range(n), 2)
-                a = [i, j]
+                a = [i, j, [_rand_scalar_form(rng, i), _rand_scalar_form(rng, j)]]
             else:
                 a = []
         progress({"op": op, "a": a, "n_before": n, "events": len(events)})
@@ -436,13 +677,26 @@ def _below(a, n):
     return [x for x in a if isinstance(x, int) and not isinstance(x, bool) and x < -n]
 
 
+def _index_arg(mm):
+    """The index object of an "index" call in a mismatch record, or None."""
+    a = mm.get("a")
+    if mm.get("kind") in ("event", "call", "step") and mm.get("op") == "index" and a and isinstance(a[0], list):
+        return a[0]
+    return None
+
+
 def classify(mm):
-    """Known findings: C02-index-below-minus-n (scalar atom index < -n is not rejected) and
-    C02-noncontiguous-mask (a boolean mask that is a strided view is refused)."""
-    if (mm.get("kind") == "event" and mm.get("op") == "index" and mm.get("a") and mm["a"][0][0] == "mask"
-            and len(mm["a"][0]) > 2 and mm["a"][0][2] == "strided"
-            and mm.get("expected", {}).get("oc") == "ok" and mm.get("observed", {}).get("oc") == "Rejected"):
+    """Known findings: C02-index-below-minus-n (scalar atom index < -n is not rejected),
+    C02-noncontiguous-mask (a boolean mask that is a strided view is refused) and
+    C02-bigendian-index-array (an index array in non-native byte order is refused)."""
+    x = _index_arg(mm)
+    accepted_but_refused = (mm.get("expected", {}).get("oc") == "ok"
+                            and mm.get("observed", {}).get("oc") == "Rejected")
+    if x and x[0] == "mask" and len(x) > 2 and x[2] == "strided" and accepted_but_refused:
         return "C02-noncontiguous-mask"
+    if (x and x[0] == "arr" and len(x) > 2 and x[2] in _BIG and accepted_but_refused
+            and mm.get("observed", {}).get("n") == mm.get("n_before")):
+        return "C02-bigendian-index-array"
     rec = None
     if mm.get("kind") == "crash":
         rec = mm.get("progress") or {}
@@ -513,7 +767,7 @@ def run(ctx):
         ops_seen[labels[lab_ix[lab]][1]] = ops_seen.get(labels[lab_ix[lab]][1], 0) + 1
     need = {"construct", "add", "remove", "remove_to", "remove_bonds", "merge", "concat", "rconcat",
             "offset", "strip_arom", "strip_order", "index", "get_bonds", "contains", "views", "copy",
-            "independent"}
+            "independent", "eq"}
     missing = need - set(ops_seen)
     if missing:
         from harness.tlabind.core import Vacuity
@@ -542,8 +796,28 @@ def run(ctx):
     items = [{"init": ids[root], "steps": [[lab_ix[lab], ids[dst]] for lab, dst in steps]}
              for root, steps in paths]
     ctx.log(f"S2: {len(items)} paths covering {covered}/{len(g.edges)} transitions")
-    results = pool.run_isolated("harness.drivers.c02:exec_path", items, env={"C02_GRAPH": gfile},
-                                item_timeout=20)
+    # S2b (every single call in every form, every comparison) shares the worker pool of S2: its
+    # items are spread evenly between the paths
+    prep = prepare_calls(ctx)
+    citems = prep["items"]
+    every = max(1, len(items) // max(1, len(citems)))
+    merged, where = [], []
+    ci = 0
+    for k, it in enumerate(items):
+        if ci < len(citems) and k % every == 0:
+            merged.append(citems[ci]); where.append(("c", ci)); ci += 1
+        merged.append(it); where.append(("p", k))
+    for j in range(ci, len(citems)):
+        merged.append(citems[j]); where.append(("c", j))
+    mres = pool.run_isolated("harness.drivers.c02:exec_item", merged, env={"C02_GRAPH": gfile},
+                             item_timeout=60)
+    results, cres = [None] * len(items), [None] * len(citems)
+    for (kind, k), r in zip(where, mres):
+        if kind == "p":
+            results[k] = r
+        else:
+            cres[k] = r
+    finish_calls(ctx, prep, cres)
     steps = 0
     for it, r in zip(items, results):
         if r and "crash" in r:
@@ -609,6 +883,102 @@ def run(ctx):
             ctx.cov["selftest_corrupted_rejected"] = mm
 
 
+def _forms_of(op, a):
+    """(family, form) pairs a case of BondCalls exercises."""
+    if op == "index":
+        return [(a[0][0], a[0][2])]
+    if op in ("add", "remove", "contains"):
+        return [("scalar", f) for f in a[-1]]
+    if op in ("get_bonds", "remove_to", "offset"):
+        return [("scalar", a[1])]
+    if op == "construct":
+        return [("rows", a[2])]
+    return []
+
+
+def prepare_calls(ctx):
+    """S1 + the work items of S2b on specs/C02/BondCalls.tla: TLC enumerates (root list, one call) with the
+    arguments in every form and every comparison of the root with its variants, checks the laws
+    (form independence, bl[i] = get_bonds(i), equality = agreement of all views) and dumps the
+    cases; all of them are executed against the real BondList."""
+    from harness.tlabind.core import Vacuity
+    from harness.tlabind.helpers import chunked, dump_states
+
+    cfg = "MC_calls.cfg" if ctx.quick else "MC_calls_thorough.cfg"
+    _res, states = dump_states(ctx, "BondCalls", cfg, stage="S1-calls", workers=8, timeout=1500)
+    roots = {}
+    forms_seen, eq_seen, ocs = {}, {}, {}
+    ncases = 0
+    for st in states:
+        c, r = st["c"], st["r"]
+        if c["op"] == "init":
+            continue
+        key = (c["fam"], c["n"], json.dumps(c["B"]))
+        exp = {"oc": r["oc"], "n": r["n"], "B": r["B"], "out": r["out"]}
+        roots.setdefault(key, []).append([c["op"], c["a"], exp])
+        ncases += 1
+        ocs[r["oc"]] = ocs.get(r["oc"], 0) + 1
+        for fam_form in _forms_of(c["op"], c["a"]):
+            k = "%s:%s" % fam_form
+            forms_seen[k] = forms_seen.get(k, 0) + (1 if r["oc"] == "ok" else 0)
+        if c["op"] == "eq":
+            k = "%s:%s" % (c["a"][0], "equal" if r["out"]["eq"] else "unequal")
+            eq_seen[k] = eq_seen.get(k, 0) + 1
+    # vacuity: every form of the specification is exercised by a call that the specification
+    # accepts, and the comparisons cover both answers / every kind of variant
+    want = ([("int", f) for f in SCALAR_FORMS] + [("scalar", f) for f in SCALAR_FORMS]
+            + [("arr", f) for f in ARRAY_FORMS] + [("mask", f) for f in MASK_FORMS]
+            + [("slice", f) for f in SLICE_FORMS] + [("rows", f) for f in ROWS_FORMS])
+    missing = ["%s:%s" % w for w in want if not forms_seen.get("%s:%s" % w)]
+    want_eq = ["same:equal", "rev:equal", "dup:equal", "retype:equal", "retype:unequal", "natoms:unequal",
+               "drop:unequal", "extra:unequal", "obj:unequal", "list:equal", "list:unequal"]
+    missing += [k for k in want_eq if not eq_seen.get(k)]
+    if missing:
+        raise Vacuity(f"BondCalls: forms / comparisons never exercised by an accepted call: {missing}")
+    if not {"ok", "IndexError", "Rejected"} <= set(ocs):
+        raise Vacuity(f"BondCalls: outcomes not all reached: {ocs}")
+    items = []
+    for (fam, n, Bj), cases in sorted(roots.items()):
+        for ch in chunked(cases, 150):
+            items.append({"fam": fam, "n": n, "B": json.loads(Bj), "cases": ch})
+    ctx.log(f"S2b: {ncases} single calls on {len(roots)} root lists in {len(items)} items")
+    return {"items": items, "roots": roots, "ncases": ncases, "forms_seen": forms_seen, "eq_seen": eq_seen,
+            "ocs": ocs}
+
+
+def finish_calls(ctx, prep, results):
+    """Verdicts and measured numbers of S2b (results in the order of prep["items"])."""
+    items, roots, ncases = prep["items"], prep["roots"], prep["ncases"]
+    forms_seen, eq_seen, ocs = prep["forms_seen"], prep["eq_seen"], prep["ocs"]
+    done = 0
+    for it, r in zip(items, results):
+        if r is None:
+            raise RuntimeError("S2b: missing result")
+        if "driver_error" in r:
+            raise RuntimeError(f"S2b: driver error {r['driver_error']}\n{r.get('tb', '')}")
+        if "crash" in r:
+            pr = r.get("progress") or {}
+            ctx.mismatch({"stage": "S2b", "kind": "crash", "signal": r["crash"], "progress": pr,
+                          "path": [[pr.get("op"), pr.get("a")]], "init": {"n": it["n"], "B": it["B"]}})
+            continue
+        done += r.get("steps", 0)
+        for mm in r.get("mismatch", ()):
+            mm["stage"] = "S2b"
+            ctx.mismatch(mm)
+    ctx.traces_validated += len(items)
+    ctx.evaluations += done
+    ctx.nontrivial += sum(1 for cases in roots.values() for op, a, _e in cases
+                          if op == "eq" or any(f not in ("py", "np") for _k, f in _forms_of(op, a)))
+    ctx.cov["s2b_cases"] = ncases
+    ctx.cov["s2b_cases_executed"] = done
+    ctx.cov["s2b_roots"] = len(roots)
+    ctx.cov["s2b_accepted_calls_per_form"] = forms_seen
+    ctx.cov["s2b_comparisons"] = eq_seen
+    ctx.cov["s2b_outcomes"] = ocs
+    for key in sorted(roots)[:1]:
+        ctx.sample({"s2b_case": roots[key][0][:2], "root": [key[1], json.loads(key[2])]})
+
+
 def validate_repo_tests(ctx):
     """S3b: BondList calls made by the repository's own tests (bonds, atoms, filter), recorded
     by a pytest plugin installed from outside and judged event by event by TLC."""
@@ -659,17 +1029,16 @@ def validate_traces(ctx, traces, selftest=False):
     d = tlc.scratch_dir("c02tr")
     tf = os.path.join(d, "traces.json")
     with open(tf, "w") as f:
-        def spec_args(e):
-            if e["op"] == "index" and len(e["a"][0]) > 2:
-                return [e["a"][0][:2]]
-            return e["a"]
-        json.dump([[dict({k: e[k] for k in ("op", "oc", "n", "bonds", "out", "cmax_ok")}, a=spec_args(e))
+        json.dump([[{k: e[k] for k in ("op", "a", "oc", "n", "bonds", "out", "cmax_ok")}
                     for e in tr] for tr in traces], f)
     res = ctx.tlc("Trace", "Trace.cfg", stage="S3-selftest" if selftest else "S3", workers=1,
                   env={"TRACE_FILE": tf}, count=not selftest, timeout=1200)
     expect_states = sum(len(t) + 1 for t in traces)
     if res.distinct != expect_states:
         raise RuntimeError(f"trace validation consumed {res.distinct} states, expected {expect_states}")
+    outside = tlc.printed_values(res.out, "DOMAIN")
+    if outside:
+        raise RuntimeError(f"S3: the driver logged calls outside the specification's domain: {outside[:3]}")
     mms = tlc.printed_values(res.out, "MISMATCH")
     if selftest:
         return len(mms)
@@ -695,7 +1064,11 @@ def validate_traces(ctx, traces, selftest=False):
 
 def replay(record):
     """Re-execute a stored mismatch against the current code."""
-    if record.get("kind") == "step":
+    def out_differs(last, exp):
+        return (last["oc"] == "ok" and exp["oc"] == "ok"
+                and not out_matches(last["op"], last["a"], exp["out"], last["out"]))
+
+    if record.get("kind") in ("step", "call"):
         bl = make(record["init"]["n"], record["init"]["B"])
         last = None
         for op, a in record["path"]:
@@ -704,7 +1077,7 @@ def replay(record):
             last = {"op": op, "a": a, "oc": oc, "n": n, "B": bonds, "out": out, "cache_ok": cok}
         exp = record["expected"]
         bad = (last["oc"] != exp["oc"] or last["n"] != exp["n"] or _sset(last["B"]) != _sset(exp["B"])
-               or not last["cache_ok"])
+               or not last["cache_ok"] or out_differs(last, exp))
         return {"last": last, "expected": exp, "mismatch": bad}
     if record.get("kind") == "event":
         from biotite.structure import BondList
@@ -716,7 +1089,8 @@ def replay(record):
             n, bonds, _ = project(bl)
             last = {"op": op, "a": a, "oc": oc, "n": n, "B": bonds, "out": out}
         exp = record["expected"]
-        bad = last["oc"] != exp["oc"] or last["n"] != exp["n"] or _sset(last["B"]) != _sset(exp["B"])
+        bad = (last["oc"] != exp["oc"] or last["n"] != exp["n"] or _sset(last["B"]) != _sset(exp["B"])
+               or out_differs(last, exp))
         return {"last": last, "expected": exp, "mismatch": bad}
     return {"error": "record kind not replayable in-process (crash records: run the path in a child)",
             "record": record}
